@@ -259,6 +259,22 @@ func candidates(k *key, tors []refbls.G1, torsNames []string) []cand {
 	return out
 }
 
+func freshPK(b []byte) crypto.PublicKey {
+	pk, err := crypto.DecodePublicKey(crypto.BLSBLS12381, append([]byte{}, b...))
+	if err != nil {
+		run.Fatal("re-decoding a public key: %v", err)
+	}
+	return pk
+}
+
+func freshSK(b []byte) crypto.PrivateKey {
+	sk, err := crypto.DecodePrivateKey(crypto.BLSBLS12381, append([]byte{}, b...))
+	if err != nil {
+		run.Fatal("re-decoding a private key: %v", err)
+	}
+	return sk
+}
+
 func main() {
 	run = ev.Start("C16", "exploration")
 	if err := refbls.SelfTest(); err != nil {
@@ -413,6 +429,43 @@ func main() {
 				k.rep("Encode", "", k.pkb, k.pk.Encode(), ev.Hex(k.pkb), ev.Hex(k.pk.Encode()), ""))
 		}
 		run.Distinct("alias/" + k.name)
+		// the PoP bytes handed to BLSVerifyPOP belong to the caller too: after a verdict, the SAME buffer is
+		// refilled and offered again to the same key object - each verdict is that of the bytes then in it
+		other := keys[0]
+		if other.name == k0.name {
+			other = keys[1]
+		}
+		neg := append([]byte{}, k.expPop...)
+		neg[0] ^= 0x20
+		fills := []struct {
+			name string
+			b    []byte
+			want bool
+		}{{"genuine", k.expPop, true}, {"pop-of-another-key", other.expPop, false}, {"negated", neg, false}, {"zeros", make([]byte, 48), false},
+			{"genuine-again", k.expPop, true}, {"bit-flip", append([]byte{k.expPop[0]}, append([]byte{k.expPop[1] ^ 1}, k.expPop[2:]...)...), false}, {"genuine-third", k.expPop, true}}
+		for _, obj := range []struct {
+			n  string
+			pk crypto.PublicKey
+		}{{"decoded-key-object", freshPK(k0.pkb)}, {"derived-key-object", freshSK(k0.priv.Encode()).PublicKey()}} { // objects no call has seen yet
+			buf := make([]byte, 48)
+			var trail []string
+			for _, f := range fills {
+				copy(buf, f.b)
+				got, err := crypto.BLSVerifyPOP(obj.pk, buf)
+				run.Add("evaluations", 1)
+				trail = append(trail, f.name)
+				if err != nil || got != f.want {
+					run.Violation("BLSVerifyPOP:verdict-depends-on-earlier-contents-of-the-callers-buffer", fmt.Sprintf("key %s (%s): one 48-byte buffer refilled and offered in turn as %v: the last verdict is (%v,%v), want %v", k.name, obj.n, trail, got, err, f.want),
+						k.rep("BLSVerifyPOP", "", k.pkb, buf, fmt.Sprint(f.want), fmt.Sprint(got), "same buffer refilled: "+strings.Join(trail, ", ")))
+					break
+				}
+				if !bytes.Equal(buf, f.b) {
+					run.Violation("BLSVerifyPOP:modifies-the-callers-buffer", fmt.Sprintf("key %s: the PoP argument was modified by the call", k.name), k.rep("BLSVerifyPOP", "", k.pkb, buf, ev.Hex(f.b), ev.Hex(buf), ""))
+					break
+				}
+			}
+			run.Distinct("refill/" + k.name + "/" + obj.n)
+		}
 	}
 	hist := map[string]int64{}
 	var mu sync.Mutex
